@@ -105,6 +105,12 @@ TEXT = {
         "level_note": "Strings are abstract (lower-casing and splitting uninterpreted), get_calendar_by_name is an assumed contract (C07 decides the tables behind it). Trusted: Verus/Z3, the extractor, the chrono and collection shims.",
         "design_ref": "DESIGN.md §7 C06",
     },
+    "C10": {
+        "technique": "Verus contracts on the extracted FXRates::try_new / rate / update / set_ad_order bodies; representation invariant fx_inv (matrix values == values of the matrix built from the stored quotes) required and ensured by every operation",
+        "level_text": "Proof (history clauses): the bodies are extracted from /repo each run. update: if some given pair is not stored the result is Err and *self is unchanged; otherwise the stored quote list is the old one with each given quote written over the stored quote of the same pair (fold-index loop proved equal to a last-index spec), and the matrix IS the one built directly from that list with base currencies[0]. set_ad_order (nine arms): quotes and currency index unchanged, resulting order as requested, every entry's value unchanged (projection arms proved entry by entry through from_shape_vec / into_iter / map; rebuild arms through the builder's contract), identity arms leave the matrix untouched. rate: None iff a currency is unknown, else the value of the matrix entry at the two currency indices. Every operation requires and re-establishes fx_inv, so after ANY finite sequence of updates / refused updates / order switches the rates are those of a market built directly from the latest quotes. try_new: empty list, wrong currency count and inconsistent settlement are Err; otherwise the state is exactly (quotes, currency index in first-occurrence order with the base first, builder result at order One).",
+        "level_note": "The builder create_fx_array is assumed (deterministic, order-independent values); the sensitivity clauses of C10 (names fx_<pair>, +-cross/quote) live inside it and are NOT covered. Trusted: Verus/Z3, extractor, shims.",
+        "design_ref": "DESIGN.md §7 C10",
+    },
     "C13": {
         "technique": "Verus contracts on the extracted generic dsolve21_ / dsolve_upper21_ / dmul11_ bodies verified once over an abstract commutative ring (loop invariants: echelon form, invertible pivots, solution-set inclusion); ring and inner-product lemma library proved from the ring axioms",
         "level_text": "Proof: the generic bodies are extracted from /repo each run with T bound to an abstract commutative ring (only the ring axioms, (a/p)*p == a for invertible p, and an order key for |.| are known). For every n, every matrix and right-hand side with `regular(a)` (the contract's form of non-singular) the returned x satisfies <row_i(a), x> == b_i for every i, as an identity in the ring - for Dual/Dual2 instances that is equality of value and of every first and second derivative. Back substitution is proved for every upper-triangular system with invertible diagonal; elimination is proved to keep every solution of the current system a solution of the original one (row operations seen backwards) and to produce zeros below invertible pivots.",
